@@ -79,6 +79,16 @@ def explore(res, tier, seed, model_ok=True):
             sc.env = reads([data]) + [('wait', 1, ('eof',))]
             scs.append(sc); exps.append(it.expected() + gen_core.Item('binary', payload, [payload], []).expected()); nts.append(True)
             res.count('special_text')
+    # a message of more than 1 MiB followed by a 70000-byte one, read in 64 KiB pieces: the read that completes the first also
+    # carries the beginning of the second (buffer management across very large messages)
+    for extra in ((0, 17) if tier == 'quick' else (0, 1, 17, 4096)):
+        big1 = gen_core.rand_bytes(rng, (1 << 20) + extra)
+        t2 = gen_core.rand_text(rng, 70000)
+        sc = Scenario([], prate=0)
+        data = sc.good_reply() + gen_core.server_frame(2, big1) + gen_core.server_frame(1, t2) + gen_core.server_frame(9, b'end')
+        sc.env = reads(limit_chunks([data])) + [('wait', 1, ('eof',))]
+        scs.append(sc); exps.append(['E:binary:' + big1.hex(), 'E:text:' + t2.hex(), 'E:ping:' + b'end'.hex()]); nts.append(True)
+        res.count('message_over_1MiB')
     pairs = coreutil.run_pairs(scs, model_ok)
     for (js, line, real, model), exp, nt in zip(pairs, exps, nts):
         if isinstance(real, dict):
@@ -95,8 +105,29 @@ def explore(res, tier, seed, model_ok=True):
                                      observed=[e[:120] for e in evs[k:k + 3]], expected=[e[:120] for e in exp[k:k + 3]]))
         if 'MUTATED' in real:
             res.failures.append(dict(cls='aliasing', what='an event payload changed after it was yielded', input=line[:3000], scenario=js))
+    # two connections alive at the same time in one process (two WebSocket objects, event loops advanced alternately): each must
+    # deliver exactly what it delivers alone - nothing (receive buffers, validators, parsers) may be shared between sessions
+    duos, dmeta = [], []
+    cand = [i for i, (js, line, real, model) in enumerate(pairs) if not isinstance(real, dict) and len(line) < 20000]
+    for k in range(12 if tier == 'quick' else 150):
+        i, j = rng.sample(cand, 2)
+        pattern = rng.choice([(0, 1), (0, 0, 1), (0, 1, 1), (0, 0, 0, 1, 1)])
+        duos.append((pairs[i][0], pairs[j][0], list(pattern))); dmeta.append((i, j))
+    for item, out, (i, j) in zip(duos, runner.parallel_map('coreutil', 'real_duo', duos, chunk=4), dmeta):
+        if isinstance(out, dict):
+            res.crashes.append(out); continue
+        res.case(('duo', pairs[i][1][-200:], pairs[j][1][-200:], tuple(item[2])), nontrivial=True); res.count('two_connections_at_once')
+        for which, idx in ((0, i), (1, j)):
+            if out[which] != pairs[idx][2]:
+                res.failures.append(dict(cls='delivery', what='with another connection alive in the same process (event loops advanced alternately %s) this connection\'s trace differs from what it delivers alone' % (item[2],),
+                                         input=dict(duo=[item[0], item[1]], pattern=item[2], which=which), observed=out[which][-400:], expected=pairs[idx][2][-400:]))
     res.samples += [p[1][:400] for p in pairs[:3]]
 
 
 def replay(rp):
+    inp = rp.get('input')
+    if isinstance(inp, dict) and 'duo' in inp:
+        for t in coreutil.real_duo((inp['duo'][0], inp['duo'][1], inp['pattern'])):
+            print(t[-2000:])
+        return 0
     return coreutil.replay_core(rp)
